@@ -1,6 +1,7 @@
 package graphql
 
 import (
+	"github.com/graphql-go/graphql/verifhook"
 	"context"
 	"errors"
 	"fmt"
@@ -176,6 +177,7 @@ func PlanQuery(schema *Schema, doc *ast.Document, operationName string) (*Plan, 
 // in mutually-referencing fragments — same shape as the runtime
 // collectFields uses.
 func (p *Plan) planSelectionSet(parentType *Object, selectionSet *ast.SelectionSet, visitedFragmentNames map[string]bool) *selectionPlan {
+	verifhook.Count(verifhook.PlanSelectionSet)
 	if selectionSet == nil {
 		return nil
 	}
@@ -226,6 +228,7 @@ func (p *Plan) planMergedFieldChildren(fp *fieldPlan) {
 // Concurrency-safe: ExecutePlan resolves fields concurrently, so several
 // goroutines may reach the same abstract field at once.
 func (p *Plan) abstractAlternative(fp *fieldPlan, runtimeType *Object) *selectionPlan {
+	verifhook.Yield(verifhook.PlanAbstractAlternative)
 	p.abstractMu.Lock()
 	defer p.abstractMu.Unlock()
 	if fp.abstractAlternatives == nil {
@@ -234,6 +237,7 @@ func (p *Plan) abstractAlternative(fp *fieldPlan, runtimeType *Object) *selectio
 	if sub, ok := fp.abstractAlternatives[runtimeType]; ok {
 		return sub
 	}
+	verifhook.Count(verifhook.PlanAbstractAlternativeBuild)
 	sub := p.planMergedSelectionsForType(runtimeType, fp.fieldASTs)
 	fp.abstractAlternatives[runtimeType] = sub
 	return sub
@@ -244,6 +248,7 @@ func (p *Plan) abstractAlternative(fp *fieldPlan, runtimeType *Object) *selectio
 // selectionPlan that mirrors what completeObjectValue's runtime
 // collectFields loop would produce.
 func (p *Plan) planMergedSelectionsForType(parentType *Object, fieldASTs []*ast.Field) *selectionPlan {
+	verifhook.Count(verifhook.PlanMergedSelectionsForType)
 	sp := &selectionPlan{parentType: parentType}
 	keyed := map[string]int{}
 	visited := map[string]bool{}
@@ -279,6 +284,7 @@ func (p *Plan) planMergedSelectionsForType(parentType *Object, fieldASTs []*ast.
 // of the same response key merge their fieldASTs (matches
 // collectFields's `fields[name] = append(fields[name], selection)`).
 func (p *Plan) collectInto(parentType *Object, selectionSet *ast.SelectionSet, visitedFragmentNames map[string]bool, sp *selectionPlan, keyed map[string]int, parentPred func(map[string]interface{}) bool) {
+	verifhook.Count(verifhook.PlanCollectInto)
 	for _, iSelection := range selectionSet.Selections {
 		switch sel := iSelection.(type) {
 		case *ast.Field:
